@@ -70,7 +70,7 @@ theorem fresh_accessory_ids_from_one (s : AccSpec) :
 theorem instance_ids_independent_of_container (m : Container) (k : Nat) (s : AccSpec) (hk : m.pool[k]? = some s.build) :
     ∃ a, (m.add k).1.pool[k]? = some a ∧ flatIds a.svcs = List.range' 1 (size s.build.svcs) := by
   have hlt : k < m.pool.length := (List.getElem?_eq_some_iff.mp hk).1
-  refine ⟨s.build.updateIDs.autoId m.idCount, ?_, ?_⟩
+  refine ⟨s.build.updateIDs.autoId (nextFree m.keys (m.keys.length + 1) m.idCount), ?_, ?_⟩
   · unfold Container.add
     rw [hk]
     simp only []
@@ -110,12 +110,33 @@ theorem served_instance_ids_unique_nonzero (specs : List AccSpec) (ops : List Op
   rw [hf]
   exact range'_nodup_nonzero _ _ hc
 
-/-- Recorded behaviour: explicit id 1 first, then an automatic id — the second accessory is rejected
-    ("duplicate accessory id 1"), keeps id 1, and the next automatic accessory gets id 2. -/
-theorem auto_id_collides_with_explicit_id :
+/-- "…with explicit or automatic accessory ids": an accessory that leaves its id to the container is never refused,
+    whatever ids the accessories before it brought along — from ANY state of the container (F54 repair; before it the
+    counter alone decided and `[explicit 1, automatic]` lost its second accessory, which `hc.NewIPTransport` did not even
+    report). -/
+theorem automatic_id_never_refused (m : Container) (k : Nat) (a : Acc) (hk : m.pool[k]? = some a) (h0 : a.id = 0) :
+    (m.add k).2 = .ok := by
+  have hfree : ¬ nextFree m.keys (m.keys.length + 1) m.idCount ∈ m.keys := nextFree_add_free m
+  simp [Container.add, hk, autoId_id, updateIDs_id, h0, hfree]
+
+/-- an accessory with an explicit id is refused exactly when an accessory of the container has that id already -/
+theorem explicit_id_refused_iff_taken (m : Container) (k : Nat) (a : Acc) (hk : m.pool[k]? = some a) (h1 : a.id ≠ 0) :
+    ((m.add k).2 = .duplicate a.id ↔ a.id ∈ m.keys) ∧ ((m.add k).2 = .ok ↔ a.id ∉ m.keys) := by
+  by_cases hm : a.id ∈ m.keys
+  · simp [Container.add, hk, autoId_id, updateIDs_id, h1, hm]
+  · simp [Container.add, hk, autoId_id, updateIDs_id, h1, hm]
+
+/-- explicit id 1 first, then two automatic ids: before the repair the second accessory was refused ("duplicate
+    accessory id 1") and only two of three were served; now all three are, with ids 1, 2, 3 -/
+theorem auto_id_collision_unfixed_refuted :
     let specs : List AccSpec := [⟨1, [⟨6, [], false, false⟩]⟩, ⟨0, [⟨6, [], false, false⟩]⟩, ⟨0, [⟨6, [], false, false⟩]⟩]
-    let r := (Container.init (specs.map AccSpec.build)).run [.add 0, .add 1, .add 2]
-    r.2 = [.ok, .duplicate 1, .ok] ∧ r.1.listedIds = [1, 2] ∧ r.1.accs = [0, 2] := by
+    let m0 := Container.init (specs.map AccSpec.build)
+    let o1 := m0.addOld 0
+    let o2 := o1.1.addOld 1
+    let o3 := o2.1.addOld 2
+    let r := m0.run [.add 0, .add 1, .add 2]
+    [o1.2, o2.2, o3.2] = [.ok, .duplicate 1, .ok] ∧ o3.1.listedIds = [1, 2] ∧
+    r.2 = [.ok, .ok, .ok] ∧ r.1.listedIds = [1, 2, 3] := by
   decide
 
 -- ------------------------------------------------------------------------------------------------
